@@ -420,7 +420,12 @@ def extract_input(trace, var='in'):
 
 def get_trace(job, res, prop):
     gb = os.path.join(res.workdir, 'h.gb')
-    cmd = cbmc_cmd(job, gb, trace_prop=prop.pid)
+    if '.unwind.' in prop.pid:
+        # unwinding assertions are created during symbolic execution and cannot be selected
+        # with --property: trace the whole run and pick the one we need
+        cmd = cbmc_cmd(job, gb) + ['--trace']
+    else:
+        cmd = cbmc_cmd(job, gb, trace_prop=prop.pid)
     rc, out, err, wall, rss = run_cmd(cmd, job.timeout, job.mem_gb, cwd=res.workdir)
     if rc == -9:
         return None
